@@ -158,11 +158,11 @@ class Interp:
                     if isinstance(p, PropertyVal):
                         p.fset = fn
                 elif "staticmethod" in decos:
-                    c.attrs[st.name] = ("static", fn)
+                    c.attrs[st.name] = ("static", self.decorate(fn, st, frame))
                 elif "classmethod" in decos:
-                    c.attrs[st.name] = ("classmethod", fn)
+                    c.attrs[st.name] = ("classmethod", self.decorate(fn, st, frame))
                 else:
-                    c.attrs[st.name] = fn
+                    c.attrs[st.name] = self.decorate(fn, st, frame)
                 frame.vars[st.name] = fn       # later class-body statements may refer to it (M = property(_getM))
             elif isinstance(st, ast.Assign):
                 try:
@@ -496,7 +496,12 @@ class Interp:
                 continue
             if base.split(".")[-1] == "wraps":
                 continue
-            raise AnalysisError(f"decorator @{text} on {fn.qual} is not modelled")
+            # any other decorator: evaluate it and apply it to the function, as Python does
+            try:
+                dec = self.eval(d, frame)
+            except SymRaise as exc:
+                raise AnalysisError(f"decorator @{text} on {getattr(fn, 'qual', fn)} cannot be evaluated: {exc}")
+            fn = self.call(dec, [fn], {})
         return fn
 
     def exec_while(self, st, frame, pc):
@@ -767,6 +772,9 @@ class Interp:
                     base = self.eval(t.value, frame)
                     if isinstance(base, SymObj):
                         self.heap[base.id].pop(t.attr, None)
+                        continue
+                    if isinstance(base, Closure):
+                        getattr(base, "fattrs", {}).pop(t.attr, None)       # del f.__wrapped__ and the like
                         continue
                 raise AnalysisError(f"unmodelled del {ast.unparse(t)}")
             return True
